@@ -35,6 +35,8 @@ func ParserLanguage() []*Grammar {
 		{"P-nullchain", "s = a X ; a = b ; b = c ; c = C | @empty", "accept"},
 		{"P-palin", "s = A s A | B", "accept"},
 		{"P-paren", "s = e ; e = LP e RP | NUM", "accept"},
+		{"P-rightrec-trailer", "rec = zed rec C | Y ; zed = Z", "accept"},
+		{"P-rightrec-trailer2", "s = a s B | a ; a = A", "accept"},
 		{"P-transnull", "d = m LET ID t SEMI ; m = P? S? ; t = END m", "accept"},
 		{"P-transnull2", "d = w X w ; w = v ; v = u ; u = Y? Z*", "accept"},
 		{"P-adjlists", "s = A+ B* C", "accept"},
@@ -120,6 +122,8 @@ func ParserPrecedence() []*Grammar {
 		mk("O-L1L1R2R2", L(1), L(1), R(2), R(2)),
 		mk("O-L1L2R3", L(1), L(2), R(3)),
 		mk("O-L7L3", L(7), L(3)),
+		mk("O-L100L300", L(100), L(300)),
+		mk("O-R2L257R70000", R(2), L(257), R(70000)),
 		mk("O-L1Lmax", L(1), L(9223372036854775807)),
 		MustGrammar("O-unary", "e = e OPA e @left(1) | e OPB e @left(2) | OPA e | NUM"),
 		// two expression rules using the same operator tokens at different levels
@@ -283,6 +287,7 @@ func LexNumbering() []*LexSpec {
 		{"N-plain", "A = 'a'\nB = [b-c]+\nC = 'c' 'd'"},
 		{"N-modes", "A = 'a' @push_mode(M)\n@mode M {\nB = 'b'\nC = 'c' @pop_mode\n}\nD = 'd'\n@mode N {\nE = 'e'\n}\nF = 'f'"},
 		{"N-external", "A = 'a'\n@external INDENT DEDENT\nB = 'b'\n@mode M {\nC = 'c'\n@external INNER\n}\n@external LAST"},
+		{"N-external-first", "@external INDENT DEDENT COMMENT\nNUM = [0-9]+\nNL = '\\n'"},
 		{"N-emitonly", "A = 'a'\nHIDDEN = 'zzz'\n@frag 'q' @emit(HIDDEN)\nB = 'b'"},
 	})
 	two := MustLexSpec("N-twofiles", "A = 'a'\nB = 'b'", "C = 'c'\n@mode M {\nD = 'd'\n}")
